@@ -247,7 +247,8 @@ def gen_file(rng, w, depth, outer_syms, earlier_syms):
       if rsp:
         ref = list(rng.choice(rsp))
         note_class(w, symtab, rt, ref)
-        st = {'k': 'bindref', 'sel': sel, 'arg': arg, 'ref': ref, '_target': t, '_reftarget': rt}
+        st = {'k': 'bindref', 'sel': sel, 'arg': arg, 'ref': ref, '_target': t, '_reftarget': rt,
+              'scope': rng.randrange(len(REFSCOPES)) if rng.random() < 0.5 else 0}
         stmts.append(st)
         continue
     if r > 0.9:
@@ -300,6 +301,10 @@ def gen_cases(rng, tier, boost=1):
     yield {'dom': 'dyn', 'units': units}
 
 
+# scopes a reference may be written under (`@scope/ref()`); the model keeps the index
+REFSCOPES = ['', 's1', 's1/s2', 'sx']
+
+
 def render(stmts, tmp, counter):
   lines = []
   for s in stmts:
@@ -315,7 +320,8 @@ def render(stmts, tmp, counter):
     elif s['k'] == 'bind':
       lines.append(f'{".".join(s["sel"])}.{s["arg"]} = {s["v"]}')
     elif s['k'] == 'bindref':
-      lines.append(f'{".".join(s["sel"])}.{s["arg"]} = @{".".join(s["ref"])}()')
+      sc = REFSCOPES[s.get('scope', 0)]
+      lines.append(f'{".".join(s["sel"])}.{s["arg"]} = @{sc + "/" if sc else ""}{".".join(s["ref"])}()')
     elif s['k'] == 'unit':
       counter[0] += 1
       path = os.path.join(tmp, f'inc{counter[0]}.gin')
@@ -340,7 +346,8 @@ def observe(gin, objs):
 
       def enc(v):
         if isinstance(v, cfgmod.ConfigurableReference):   # a reference is observed as the object it denotes
-          return -(1000 + ids.get(id(v.configurable.wrapped), 10 ** 6))
+          sc = '/'.join(v.scopes)
+          return -(1000 + 1000 * (REFSCOPES.index(sc) if sc in REFSCOPES else 99) + ids.get(id(v.configurable.wrapped), 10 ** 6))
         return v
       rows.append([i, sorted([k, enc(v)] for k, v in b.items())])
   return sorted(rows)
@@ -460,7 +467,7 @@ def intended(case):
       if s['k'] == 'bind':
         b.setdefault(s['_target'], {})[s['arg']] = s['v']
       elif s['k'] == 'bindref':
-        b.setdefault(s['_target'], {})[s['arg']] = -(1000 + s['_reftarget'])
+        b.setdefault(s['_target'], {})[s['arg']] = -(1000 + 1000 * s.get('scope', 0) + s['_reftarget'])
       elif s['k'] == 'unit':
         walk(s['body'])
   for u in case['units']:
